@@ -340,8 +340,13 @@ pub fn check_field_hints(choices: &Vec<u16>) -> Out {
                     v
                 }
             };
+            // self check of the hint convention: one time in twelve the scripted host supplies the
+            // correct quotient and remainder itself, which must behave exactly like the honest host
+            let explicit_honest = !honest && ch.chance(1, 12);
             let hint = if honest {
                 None
+            } else if explicit_honest {
+                Some(vec![q & 0xFFFF_FFFF, q >> 32, r & 0xFFFF_FFFF, r >> 32])
             } else {
                 // in the order in which adv_push pops them: the honest injector pushes r_hi, r_lo,
                 // q_hi, q_lo, so q_lo is popped first, then q_hi, r_lo, r_hi
@@ -372,6 +377,14 @@ pub fn check_field_hints(choices: &Vec<u16>) -> Out {
             stack.extend(SENT);
             let cj = json!({"instruction": format!("u64::{name}"), "a": a, "b": b, "hint_pop_order": hint});
             let r = run_with(&format!("use.std::math::u64\nbegin exec.u64::{name} end"), &stack, AdviceInputs::default(), Script { stack_hint: hint, ..honest_script() }).map_err(|e| Viol::new("C09:setup", e, cj.clone()))?;
+            if explicit_honest {
+                // a failure here means the harness writes hints in the wrong order (its lies would
+                // then be rejected for the wrong reason)
+                return match r {
+                    Res::Ok(out, _) if out[..want.len()] == want[..] => Ok(Info { classes: vec![format!("u64::{name}:scripted-correct-hint-accepted")], ..Info::default() }),
+                    other => Err(Viol::new("C09:harness-hint-convention", format!("the scripted host supplied the correct quotient and remainder for u64::{name} and the procedure did not return the correct result: {}", match other { Res::Ok(o, _) => format!("{:?}", &o[..want.len()]), Res::NotCompleted(e) => e }), cj)),
+                };
+            }
             judge(&format!("u64::{name}"), if honest { "honest" } else { "perturbed" }, r, &want, honest, cj)
         }
     }
